@@ -465,3 +465,301 @@ Proof.
     destruct (select_rows _ w o lim (ts_rows st)) as [sel|]; cbn; auto.
     discriminate.
 Qed.
+
+(* ================================================================ DELETE *)
+(* DELETE removes exactly the selected rows: those are existing rows whose
+   WHERE is TRUE (all of them without ORDER BY / LIMIT, see
+   delete_all_matching), the count is their number, every other binding stays *)
+Theorem delete_removes_exactly sch st w o lim args n l :
+  r_out (exec sch st (SDelete w o lim) args) = OkMod n l ->
+  exists sel,
+    select_rows (mk_env sch args) w o lim (ts_rows st) = Ok sel /\
+    n = Z.of_nat (length sel) /\
+    (forall kr, In kr sel ->
+       In kr (ts_rows st) /\ matchesb (mk_env sch args) w (snd kr) = true) /\
+    (tbl_wf (ts_rows st) -> tbl_wf sel) /\
+    forall k, lookup k (ts_rows (r_state (exec sch st (SDelete w o lim) args))) =
+              if existsb (key_eqb k) (keys sel) then None else lookup k (ts_rows st).
+Proof.
+  cbn. unfold exec_delete. destruct (negb _); cbn; [discriminate|].
+  destruct (select_rows (mk_env sch args) w o lim (ts_rows st)) as [sel|] eqn:S; cbn; [|discriminate].
+  intro H; inversion H; subst. exists sel.
+  destruct (select_rows_sound _ _ _ _ _ _ S) as [A B].
+  repeat split; auto; try apply A; auto.
+  intro k. unfold remove_keys.
+  rewrite (lookup_filter_key (fun k => negb (existsb (key_eqb k) (keys sel)))).
+  now destruct (existsb (key_eqb k) (keys sel)).
+Qed.
+
+Lemma existsb_keys_filter (f : row -> bool) t k :
+  tbl_wf t ->
+  existsb (key_eqb k) (keys (filter (fun kr => f (snd kr)) t)) =
+  match lookup k t with Some r => f r | None => false end.
+Proof.
+  unfold tbl_wf, keys. revert k. induction t as [|[k0 r0] t IH]; intro k; cbn; auto.
+  intro W. inversion W as [|? ? N W']; subst.
+  assert (L0 : lookup k0 t = None) by (apply lookup_None; exact N).
+  destruct (f r0) eqn:F0; cbn; keq k k0; cbn; auto.
+  subst. rewrite IH, L0, F0 by auto. reflexivity.
+Qed.
+
+(* without ORDER BY / LIMIT: a row disappears iff its WHERE is TRUE *)
+Theorem delete_all_matching sch st w args n l :
+  tbl_wf (ts_rows st) ->
+  r_out (exec sch st (SDelete w [] None) args) = OkMod n l ->
+  forall k, lookup k (ts_rows (r_state (exec sch st (SDelete w [] None) args))) =
+            match lookup k (ts_rows st) with
+            | Some r => if matchesb (mk_env sch args) w r then None else Some r
+            | None => None
+            end.
+Proof.
+  intros W H k. destruct (delete_removes_exactly _ _ _ _ _ _ _ _ H) as [sel [S [_ [_ [_ L]]]]].
+  rewrite L. apply select_rows_all in S. subst sel.
+  rewrite (existsb_keys_filter (matchesb (mk_env sch args) w)) by auto.
+  destruct (lookup k (ts_rows st)); auto.
+Qed.
+
+(* ================================================================ LIMIT *)
+Lemma firstn_clamp {A} (n : Z) (l : list A) :
+  0 <= n -> firstn (clampn n l) l = firstn (Z.to_nat n) l.
+Proof.
+  intro Hn. unfold clampn. destruct (Z.le_ge_cases n (Z.of_nat (length l))) as [C|C].
+  - now rewrite Z.min_l.
+  - rewrite Z.min_r, Nat2Z.id by auto. rewrite firstn_all. symmetry. apply firstn_all2. lia.
+Qed.
+
+Lemma limit_lit_prefix {A} en (n : Z) (l : list A) :
+  0 <= n <= MAX_I64 ->
+  limit_rows en (Some (LimLit n, None)) l = Ok (firstn (Z.to_nat n) l).
+Proof.
+  intros [H0 H1]. unfold limit_rows, limit_num. cbn [bind].
+  replace ((0 <=? n) && (n <=? MAX_I64)) with true
+    by (symmetry; apply andb_true_iff; split; now apply Z.leb_le).
+  cbn [bind].
+  replace (clampn 0 l) with O by (unfold clampn; lia). cbn [skipn].
+  now rewrite firstn_clamp.
+Qed.
+
+Lemma select_rows_limit_prefix en w o t (n : Z) sel :
+  0 <= n <= MAX_I64 ->
+  select_rows en w o None t = Ok sel ->
+  select_rows en w o (Some (LimLit n, None)) t = Ok (firstn (Z.to_nat n) sel).
+Proof.
+  intros Hn. unfold select_rows.
+  destruct (filter_rows en w t) as [s1|]; cbn [bind]; [|discriminate].
+  destruct (order_rows en o s1) as [s2|]; cbn [bind]; [|discriminate].
+  intro H. inversion H; subst. now apply limit_lit_prefix.
+Qed.
+
+Lemma project_firstn en es sel rows n :
+  project en es sel = Ok rows -> project en es (firstn n sel) = Ok (firstn n rows).
+Proof.
+  revert rows n; induction sel as [|[k r] sel IH]; intros rows n H.
+  - cbn in H. inversion H. now destruct n.
+  - cbn in H. destruct (eval_list (with_row en r) es) as [vs|] eqn:E; cbn [bind] in H; [|discriminate].
+    destruct (project en es sel) as [rest|] eqn:P; cbn [bind] in H; [|discriminate].
+    inversion H; subst. destruct n; cbn; auto.
+    rewrite E. cbn [bind]. rewrite (IH rest n eq_refl). reflexivity.
+Qed.
+
+(* LIMIT n returns a prefix of the unlimited result *)
+Theorem limit_returns_prefix sch t f w o args (n : Z) rows :
+  0 <= n <= MAX_I64 -> f <> FCount ->
+  exec_select sch t f w o None args = Ok rows ->
+  exec_select sch t f w o (Some (LimLit n, None)) args = Ok (firstn (Z.to_nat n) rows).
+Proof.
+  intros Hn Hf. unfold exec_select. destruct (negb _); [discriminate|].
+  destruct (select_rows (mk_env sch args) w o None t) as [sel|] eqn:S; cbn [bind]; [|discriminate].
+  rewrite (select_rows_limit_prefix _ _ _ _ _ _ Hn S). cbn [bind].
+  destruct f; try congruence.
+  - intro H; inversion H. now rewrite firstn_map.
+  - apply project_firstn.
+Qed.
+
+(* and the rows an UPDATE / DELETE with LIMIT n works on are the first n of
+   those it would work on without the LIMIT, in the same order *)
+Theorem limited_write_selects_prefix sch st w o args (n : Z) sel :
+  0 <= n <= MAX_I64 ->
+  select_rows (mk_env sch args) w o None (ts_rows st) = Ok sel ->
+  select_rows (mk_env sch args) w o (Some (LimLit n, None)) (ts_rows st) = Ok (firstn (Z.to_nat n) sel).
+Proof. apply select_rows_limit_prefix. Qed.
+
+(* ================================================================ UPDATE *)
+Lemma wfold_inv_in {A} (P : wstate -> Prop) (f : wstate -> A -> wres) l :
+  (forall s x s', In x l -> P s -> f s x = WOk s' -> P s') ->
+  forall s s', P s -> wfold f l s = WOk s' -> P s'.
+Proof.
+  induction l as [|x l IH]; cbn; intros Hf s s' Ps H.
+  - inversion H. now subst.
+  - destruct (f s x) as [s1|] eqn:E; [|discriminate].
+    apply (IH (fun s x s' I => Hf s x s' (or_intror I)) s1 s'); auto.
+    apply (Hf s x s1); auto.
+Qed.
+
+(* frame: an UPDATE changes no row whose WHERE is not TRUE *)
+Theorem update_frame sch st sets w o lim args n l :
+  tbl_wf (ts_rows st) ->
+  r_out (exec sch st (SUpdate sets w o lim) args) = OkMod n l ->
+  forall k r, lookup k (ts_rows st) = Some r ->
+              matchesb (mk_env sch args) w r = false ->
+              lookup k (ts_rows (r_state (exec sch st (SUpdate sets w o lim) args))) = Some r.
+Proof.
+  intro W. cbn. unfold exec_update. destruct (negb _); cbn; [discriminate|].
+  destruct (select_rows (mk_env sch args) w o lim (ts_rows st)) as [sel|] eqn:S; cbn; [|discriminate].
+  destruct (select_rows_sound _ _ _ _ _ _ S) as [A _].
+  match goal with |- context [wfold ?f ?l ?s0] => destruct (wfold f l s0) as [s1|] eqn:F end; cbn;
+    [|discriminate].
+  intros _ k r L M.
+  assert (NI : ~ In k (keys sel)).
+  { intro I. apply in_map_iff in I. destruct I as [[k1 r1] [E I]]. cbn in E. subst k1.
+    destruct (A _ I) as [It Mt]. apply (In_lookup _ _ _ W) in It.
+    rewrite L in It. inversion It; subst. cbn in Mt. congruence. }
+  refine (wfold_inv_in
+            (fun s => forall k r, lookup k (ts_rows st) = Some r -> ~ In k (keys sel) ->
+                                  lookup k (w_t s) = Some r)
+            _ sel _ _ s1 _ F k r L NI); [|cbn; auto].
+  clear. intros s [k0 old] s' I P H k r L NI.
+  specialize (P k r L NI).
+  unfold update_row in H.
+  destruct (apply_sets _ sets old) as [vals|]; [|discriminate].
+  destruct (row_eqb vals old); [inversion H; now subst|].
+  destruct (negb (key_eqb (key_of sch vals) k0) && mem (key_of sch vals) (w_t s)) eqn:C; [discriminate|].
+  apply free_after_remove in C. inversion H; subst; cbn.
+  assert (K0 : k <> k0).
+  { intro; subst. apply NI. apply in_map_iff. exists (k0, old). auto. }
+  rewrite lookup_put by auto. rewrite (lookup_remove_neq k0 k) by congruence.
+  keq k (key_of sch vals); auto.
+  subst. rewrite (lookup_remove_neq k0) in C by congruence. congruence.
+Qed.
+
+(* ================================================================ INSERT *)
+Lemma insert_row_plain_step sch en idx s es s' :
+  insert_row sch en InsPlain idx [] s es = WOk s' ->
+  exists k vals, lookup k (w_t s) = None /\ w_t s' = put k vals (w_t s) /\
+                 w_aff s' = w_aff s + 1.
+Proof.
+  unfold insert_row.
+  destruct (do g <- given_values en (s_cols sch) idx es (map (fun _ => None) (s_cols sch));
+            fill_defaults (s_cols sch) g) as [vals0|]; [|discriminate].
+  destruct (gen_auto (s_cols sch) vals0 (w_auto s) (w_last s)) as [[vals1 auto1] last1].
+  destruct (store_all (s_cols sch) vals1 auto1) as [auto2 [vals|]]; [|discriminate].
+  destruct (lookup (key_of sch vals) (w_t s)) as [old|] eqn:L; [discriminate|].
+  intro H; inversion H; cbn. eauto.
+Qed.
+
+Lemma insert_plain_fold sch en idx rows : forall s s',
+  wfold (insert_row sch en InsPlain idx []) rows s = WOk s' ->
+  w_aff s' = w_aff s + Z.of_nat (length rows) /\
+  length (w_t s') = (length (w_t s) + length rows)%nat /\
+  forall k r, lookup k (w_t s) = Some r -> lookup k (w_t s') = Some r.
+Proof.
+  induction rows as [|es rows IH]; cbn [wfold]; intros s s' H.
+  - inversion H; subst. cbn. repeat split; auto; lia.
+  - destruct (insert_row sch en InsPlain idx [] s es) as [s1|] eqn:E; [|discriminate].
+    apply insert_row_plain_step in E. destruct E as [k [vals [L [T A]]]].
+    destruct (IH _ _ H) as [A' [Len Keep]]. repeat split.
+    + rewrite A', A. cbn [length]. lia.
+    + rewrite Len, T, length_put. cbn [length]. lia.
+    + intros k0 r0 L0. apply Keep. rewrite T, lookup_put by auto.
+      keq k0 k; auto. congruence.
+Qed.
+
+(* INSERT adds exactly one new key per listed row and keeps every existing
+   binding, or fails (1062, ...) leaving the rows unchanged *)
+Theorem insert_adds_exactly sch st names rows args :
+  let r := exec sch st (SInsert InsPlain names rows []) args in
+  match r_out r with
+  | OkMod n _ =>
+      n = Z.of_nat (length rows) /\
+      length (ts_rows (r_state r)) = (length (ts_rows st) + length rows)%nat /\
+      forall k row, lookup k (ts_rows st) = Some row -> lookup k (ts_rows (r_state r)) = Some row
+  | Fail _ => ts_rows (r_state r) = ts_rows st
+  | OkRows _ => False
+  end.
+Proof.
+  cbn. unfold exec_insert.
+  destruct (match names with Some ns => resolve_cols (s_cols sch) ns [] | None => Ok _ end) as [idx|];
+    cbn; auto.
+  destruct (negb (arity_ok _ _ rows)); cbn; auto.
+  destruct (negb _); cbn; auto.
+  match goal with |- context [wfold ?f ?l ?s0] => destruct (wfold f l s0) as [s1|] eqn:F end; cbn; auto.
+  apply insert_plain_fold in F. cbn in F. destruct F as [A [B C]]. repeat split; auto.
+Qed.
+
+(* a duplicate key refuses the whole plain INSERT with 1062 *)
+Theorem insert_duplicate_key_1062 sch en idx s es :
+  forall vals0 vals1 auto1 last1 auto2 vals old,
+  (do g <- given_values en (s_cols sch) idx es (map (fun _ => None) (s_cols sch));
+   fill_defaults (s_cols sch) g) = Ok vals0 ->
+  gen_auto (s_cols sch) vals0 (w_auto s) (w_last s) = (vals1, auto1, last1) ->
+  store_all (s_cols sch) vals1 auto1 = (auto2, Ok vals) ->
+  lookup (key_of sch vals) (w_t s) = Some old ->
+  insert_row sch en InsPlain idx [] s es = WFail auto2 (EErr E_DUP).
+Proof.
+  intros * H1 H2 H3 H4. unfold insert_row. rewrite H1, H2, H3, H4. reflexivity.
+Qed.
+
+(* ================================================================ upsert *)
+(* INSERT ... ON DUPLICATE KEY UPDATE is, row by row, an insert when the key
+   is free and otherwise an update of the row that holds the key, with
+   VALUES(col) reading the row that would have been inserted *)
+Theorem upsert_is_insert_or_update sch en mode idx x ondup s es s' :
+  insert_row sch en mode idx (x :: ondup) s es = WOk s' ->
+  (exists k vals, lookup k (w_t s) = None /\ w_t s' = put k vals (w_t s) /\
+                  w_aff s' = w_aff s + 1)
+  \/
+  (exists k old vals s1,
+      lookup k (w_t s) = Some old /\ k = key_of sch vals /\
+      w_t s1 = w_t s /\ w_aff s1 = w_aff s /\
+      update_row sch {| e_cols := s_cols sch; e_row := []; e_args := e_args en; e_ins := Some vals |}
+                 (x :: ondup) 2 s1 (k, old) = WOk s').
+Proof.
+  unfold insert_row.
+  destruct (do g <- given_values en (s_cols sch) idx es (map (fun _ => None) (s_cols sch));
+            fill_defaults (s_cols sch) g) as [vals0|]; [|discriminate].
+  destruct (gen_auto (s_cols sch) vals0 (w_auto s) (w_last s)) as [[vals1 auto1] last1].
+  destruct (store_all (s_cols sch) vals1 auto1) as [auto2 [vals|]]; [|discriminate].
+  destruct (lookup (key_of sch vals) (w_t s)) as [old|] eqn:L.
+  - intro H. right.
+    exists (key_of sch vals), old, vals,
+      {| w_t := w_t s; w_auto := auto2; w_aff := w_aff s; w_last := last1 |}.
+    cbn. repeat split; auto.
+  - intro H; inversion H; cbn. left. eauto.
+Qed.
+
+Lemma insert_row_plain_any sch en mode idx ondup s es s' :
+  insert_row sch en InsPlain idx [] s es = WOk s' ->
+  insert_row sch en mode idx ondup s es = WOk s'.
+Proof.
+  unfold insert_row.
+  destruct (do g <- given_values en (s_cols sch) idx es (map (fun _ => None) (s_cols sch));
+            fill_defaults (s_cols sch) g) as [vals0|]; [|discriminate].
+  destruct (gen_auto (s_cols sch) vals0 (w_auto s) (w_last s)) as [[vals1 auto1] last1].
+  destruct (store_all (s_cols sch) vals1 auto1) as [auto2 [vals|]]; [|discriminate].
+  destruct (lookup (key_of sch vals) (w_t s)) as [old|] eqn:L; [discriminate|auto].
+Qed.
+
+(* when no listed key collides, the upsert / IGNORE / REPLACE forms are the plain INSERT *)
+Theorem upsert_without_conflict_is_insert sch st mode names rows ondup args n l :
+  sets_ok (s_cols sch) ondup && all_cols_ok (s_cols sch) (map snd ondup) = true ->
+  r_out (exec sch st (SInsert InsPlain names rows []) args) = OkMod n l ->
+  exec sch st (SInsert mode names rows ondup) args = exec sch st (SInsert InsPlain names rows []) args.
+Proof.
+  intro OK. cbn. unfold exec_insert.
+  destruct (match names with Some ns => resolve_cols (s_cols sch) ns [] | None => Ok _ end) as [idx|];
+    cbn; auto.
+  destruct (negb (arity_ok _ _ rows)); cbn; auto.
+  apply andb_true_iff in OK. destruct OK as [O1 O2]. rewrite O1, O2.
+  cbn [sets_ok all_cols_ok map forallb]. rewrite !andb_true_r.
+  destruct (negb (forallb (all_cols_ok (s_cols sch)) rows)); cbn; auto.
+  match goal with |- context [wfold (insert_row ?a ?b InsPlain ?c []) ?l ?s0] =>
+    destruct (wfold (insert_row a b InsPlain c []) l s0) as [s1|] eqn:F end; cbn; [|discriminate].
+  intros _.
+  assert (G : forall rows s0 s1,
+             wfold (insert_row sch (mk_env sch args) InsPlain idx []) rows s0 = WOk s1 ->
+             wfold (insert_row sch (mk_env sch args) mode idx ondup) rows s0 = WOk s1).
+  { clear. induction rows as [|es rows IH]; cbn; auto. intros s0 s1.
+    destruct (insert_row sch (mk_env sch args) InsPlain idx [] s0 es) as [s2|] eqn:E; [|discriminate].
+    rewrite (insert_row_plain_any _ _ mode _ ondup _ _ _ E). apply IH. }
+  now rewrite (G _ _ _ F).
+Qed.
